@@ -454,12 +454,13 @@ def check_weights_and_initialisers(run, A):
     # flag
     f = prog.func('pb_bss.initializer.deterministic::flag')
     gg = A.graphs.get(f)
-    divs = [(dv, class_sum_form(dv.args[2])) for dv in _division_terms(gg)]
-    divs = [(dv, cs) for dv, cs in divs if cs is not None]
+    # every division of the (array valued) initialisation: its divisor is the sum of that array over the class axis, kept at -2
+    divs = [(dv, class_sum_form(dv.args[2])) for dv in _division_terms(gg)
+            if any(is_call_to(x, 'numpy.broadcast_to') for x in walk_terms(dv.args[1], into_mu=False))]
     if not divs:
         raise AnalysisError('flag: normalisation vanished')
     for dv, cs in divs:
-        ok = cs[1] == -2 and cs[2] == -2 and strip_views(cs[0]) is strip_views(dv.args[1])
+        ok = cs is not None and cs[1] == -2 and cs[2] == -2 and strip_views(cs[0]) is strip_views(dv.args[1])
         run.check(ok, 'R-AXIS', 'flag: renormalised over the class axis', f.loc(dv.node), 'init / sum(init, axis=-2, keepdims=True)',
                   'flag initialiser is not normalised by its own sum over axis -2', construct='R-AXIS::flag::normalisation')
     bc = [e.term for e in gg.events if e.kind == 'call' and is_call_to(e.term, 'numpy.broadcast_to')]
@@ -704,8 +705,9 @@ def check_unsqueeze(run, A):
                 m = strip_views(el.args[2])
                 if m.op == 'binop' and m.args[0] == 'Add':
                     parts = [strip_views(m.args[1]), strip_views(m.args[2])]
-                    lens = [x for x in parts if is_call_to(x, 'builtin.len')]
-                    fut = len(lens) == 2 and any(strip_views(call_arg(x, 0)).op == 'param' and strip_views(call_arg(x, 0)).args[0] == 'axis' for x in lens)
+                    # rank of the array (len(shape) / array.ndim) + number of axes to insert
+                    lens = [x for x in parts if is_call_to(x, 'builtin.len') or (x.op == 'attr' and x.args[1] == 'ndim')]
+                    fut = len(lens) == 2 and any(is_call_to(x, 'builtin.len') and strip_views(call_arg(x, 0)).op == 'param' and strip_views(call_arg(x, 0)).args[0] == 'axis' for x in lens)
         for e in l.body_events:
             if e.kind == 'call' and call_parts(e.term)[0] == 'method:insert':
                 _, pos, _ = call_parts(e.term)
